@@ -47,6 +47,7 @@ def run(ctx, rep):
     rep.guarded('L7.l7', l7, ctx, rep)
     rep.guarded('L8.l8', l8, ctx, rep)
     rep.guarded('L9.l9', l9, ctx, rep)
+    rep.guarded('L10.l10', l10, ctx, rep)
 
 
 # --------------------------------------------------------------------- L1 check_fit dominance
@@ -719,3 +720,80 @@ def l9(ctx, rep):
                 rep.ok('L9.last', fn, st, 'nothing that can fail follows the flag', construct=f'{fn.cls.name}.fit: after fitted = True')
     if n == 0:
         rep.undecided('L9.last', prog.method('copulas.multivariate.base.Multivariate', 'check_fit'), 'fit', 'no fit assigns self.fitted directly', construct='fitted flag')
+
+
+# ----------------------------------------------------------------------------- L10 memo tables are keyed by everything the value depends on
+def _sources(fn, e, seen=None):
+    """Names the value of e depends on, expressed in parameters of fn and in *pieces*: a local bound by tuple-unpacking a call
+    (`package, name = q.rsplit('.', 1)`) is a source of its own - two pieces of one input are different information."""
+    seen = seen if seen is not None else set()
+    out = set()
+    for x in ast.walk(e):
+        if not (isinstance(x, ast.Name) and isinstance(x.ctx, ast.Load)):
+            continue
+        if x.id in fn.params:
+            out.add(x.id)
+            continue
+        if x.id in seen:
+            continue
+        defs = []
+        piece = False
+        for a in walk_no_nested(fn.node):
+            if isinstance(a, ast.Assign):
+                for t in a.targets:
+                    if isinstance(t, ast.Name) and t.id == x.id:
+                        defs.append(a.value)
+                    elif isinstance(t, (ast.Tuple, ast.List)) and any(isinstance(y, ast.Name) and y.id == x.id for y in t.elts):
+                        piece = True
+            elif isinstance(a, (ast.For, ast.comprehension)) and any(isinstance(y, ast.Name) and y.id == x.id for y in ast.walk(a.target)):
+                piece = True
+        if piece:
+            out.add(x.id)
+        for d in defs:
+            out |= _sources(fn, d, seen | {x.id})
+    return out
+
+
+def l10(ctx, rep):
+    """A table that outlives a call (module level, class level) and is filled by a library function is a memo: the stored value
+    must be determined by the key, i.e. every piece of input the value is computed from also feeds the key."""
+    prog = ctx.prog
+    rep.rule('L10.memokey', 'a module- or class-level table filled by a library function is keyed by every input its stored value depends on')
+    tables = {}
+    for mod in prog.modules.values():
+        for st in mod.tree.body:
+            if isinstance(st, ast.Assign) and len(st.targets) == 1 and isinstance(st.targets[0], ast.Name) \
+                    and (isinstance(st.value, ast.Dict) and not st.value.keys or (isinstance(st.value, ast.Call) and call_name(st.value) in ('dict', 'OrderedDict', 'defaultdict', 'WeakValueDictionary'))):
+                tables[(mod.name, st.targets[0].id)] = st
+    n = 0
+    for fn in sorted(prog.functions.values(), key=lambda f: f.qualname):
+        for s_ in walk_no_nested(fn.node):
+            key = val = name = None
+            if isinstance(s_, ast.Assign) and len(s_.targets) == 1 and isinstance(s_.targets[0], ast.Subscript) and isinstance(s_.targets[0].value, ast.Name):
+                name, key, val = s_.targets[0].value.id, s_.targets[0].slice, s_.value
+            elif isinstance(s_, ast.Expr) and isinstance(s_.value, ast.Call) and isinstance(s_.value.func, ast.Attribute) and s_.value.func.attr == 'setdefault' \
+                    and isinstance(s_.value.func.value, ast.Name) and len(s_.value.args) == 2:
+                name, key, val = s_.value.func.value.id, s_.value.args[0], s_.value.args[1]
+            if name is None or (fn.module.name, name) not in tables:
+                continue
+            if any(isinstance(x, ast.Name) and x.id == name and isinstance(x.ctx, ast.Store) for x in walk_no_nested(fn.node)):
+                continue  # a local of the same name
+            n += 1
+            ks, vs = _sources(fn, key), _sources(fn, val)
+
+            def origin(piece):
+                """What a tuple-unpacked piece was cut out of: a piece is covered by a key that contains the whole."""
+                out = set()
+                for a in walk_no_nested(fn.node):
+                    if isinstance(a, ast.Assign) and any(isinstance(t, (ast.Tuple, ast.List)) and any(isinstance(y, ast.Name) and y.id == piece for y in t.elts) for t in a.targets):
+                        out |= {x.id for x in ast.walk(a.value) if isinstance(x, ast.Name) and isinstance(x.ctx, ast.Load) and (x.id in fn.params or x.id in ks)}
+                return out
+            missing = sorted(p_ for p_ in vs - ks if not (origin(p_) and origin(p_) <= ks))
+            cons = f'{fn.module.name.replace("copulas.", "", 1)}.{name}: memo key'
+            if missing:
+                rep.bad('L10.memokey', fn, s_, f'`{short(s_, 70)}`: the stored value depends on {missing} but the key only on {sorted(ks)}: a later call that differs in '
+                        f'{missing[0]} gets the value computed for an earlier one', construct=cons)
+            else:
+                rep.ok('L10.memokey', fn, s_, f'key covers the inputs of the value ({sorted(vs)})', construct=cons)
+    if n == 0:
+        rep.ok('L10.memokey', prog.func('copulas.utils.get_instance'), 'get_instance', f'no library function fills a module-level table ({len(tables)} module-level dicts)', construct='module-level tables')
